@@ -830,8 +830,59 @@ func noteFunctionNames(fn *ssa.Function) {
 	reviewedNames[n] = m
 }
 
-// lookupReviewedKey is lookupReviewed returning the key of the entry that matched
+// reviewedParentOf: for the anchor name of a private helper (region.go) the anchor name of the function it was extracted
+// from / is only called by; "" otherwise. Set at load.
+var reviewedParentOf = func(string) string { return "" }
+
+// lookupReviewedKey is lookupReviewed returning the key of the entry that matched. Beyond lookupReviewedKey1 it follows
+// "extract method" and "inline": a construct reviewed in function A and now standing in a private helper of A is the same
+// construct (the key is tried with the helper replaced by its only caller, up to three levels); and an entry whose
+// function no longer exists in the module matches the same construct in the function that absorbed it, if unique.
 func lookupReviewedKey(table map[string]string, key string) (string, bool) {
+	if k, ok := lookupReviewedKey1(table, key); ok {
+		return k, true
+	}
+	i := strings.Index(key, "|")
+	if i <= 0 {
+		return "", false
+	}
+	fn, rest := key[:i], key[i:]
+	for hops := 0; hops < 3; hops++ {
+		par := reviewedParentOf(fn)
+		if par == "" || par == fn {
+			break
+		}
+		if k, ok := lookupReviewedKey1(table, par+rest); ok {
+			return k, true
+		}
+		fn = par
+	}
+	// the entry's function is gone (inlined into its caller): same construct, unique
+	var cands []string
+	nrest := normNames(normClosure(rest))
+	for k := range table {
+		j := strings.Index(k, "|")
+		if j <= 0 {
+			continue
+		}
+		efn := k[:j]
+		if reviewedNames[efn] != nil || reviewedNames[normClosure(efn)] != nil {
+			continue
+		}
+		if strings.Contains(efn, "$") {
+			continue // closures are matched by lookupReviewedKey1
+		}
+		if normNames(normClosure(k[j:])) == nrest && reviewedParentOf("gone:"+efn+">"+key[:i]) == "ok" {
+			cands = append(cands, k)
+		}
+	}
+	if len(cands) == 1 {
+		return cands[0], true
+	}
+	return "", false
+}
+
+func lookupReviewedKey1(table map[string]string, key string) (string, bool) {
 	if _, ok := table[key]; ok {
 		return key, true
 	}
